@@ -1,3 +1,4 @@
+#![cfg_attr(target_pointer_width = "32", allow(arithmetic_overflow))] // 2^32-sized probes exist only in the 64-bit stages
 //! C06 — Bounded / Fixed ring buffers behave as FIFO queues / delay lines and are memory-safe.
 //!
 //! Reference-model monitor: a VecDeque stepped in lock-step with the real buffer. Pushed values
@@ -785,8 +786,8 @@ fn dispatch_fixed(store: &'static str, content: Vec<i64>, n: usize, first: usize
 /// path, misbehaves exactly there): 2^k - d and 2^k + d for small d
 fn boundary_indices(n: usize) -> Vec<usize> {
     if lean() {
-        // interpreter-sized: only the 32-bit boundary
-        let p = 1usize << 32;
+        // interpreter-sized: only the 32-bit boundary (the 16-bit one in a 32-bit build)
+        let p = 1usize << (usize::BITS / 2);
         return (0..=n + 1).flat_map(|d| [p - d, p + d]).collect();
     }
     vmon::edge::wide_usizes(n + 1).into_iter().filter(|x| *x > 200).collect()
@@ -860,7 +861,7 @@ fn random_fixed_op(rng: &mut Rng, n: usize) -> Op {
 }
 fn rand_index(rng: &mut Rng, cap: usize, len: usize) -> usize {
     if rng.chance(1, 12) {
-        let k = [8u32, 16, 24, 31, 32, 33, 48, 63][rng.usize_below(8)];
+        let k = [8u32, 16, 24, 31, 32, 33, 48, 63][rng.usize_below(8)] % usize::BITS;
         let d = rng.usize_below(cap + 2);
         let m = 1 + rng.usize_below(3);
         return if rng.bool() { (1usize << k).wrapping_sub(d) } else { (1usize << k).wrapping_mul(m).wrapping_add(d) };
